@@ -310,3 +310,122 @@ Section Proofs.
   Qed.
 
 End Proofs.
+
+(* ====================================================================== whole timer sweeps; the silent-peer bound *)
+Section Sweeps.
+  Variable P : iface.
+  Hypothesis istate_set : forall i z, istate P (set_state P i z) = z.
+  (** contract of the DPD generator (generate_dead_peer_detection_request): it leaves the IkeSa in a
+      request-outstanding state; regenerated fact: it assigns DPD_REQ_SENT, which is one (see Props/C13.v) *)
+  Hypothesis dpd_request_outstanding : forall i, rt_states (istate P (fst (gen_dpd P i))) = true.
+
+  (** one iteration of the three timer loops of main_loop for one IkeSa, in their order *)
+  Definition full_sweep (s : sa P) (now : Z) : sa P * list (dgram (B P)) :=
+    let '(s1, o1) := check_retransmission P s now in
+    let '(s2, o2) := check_dpd P s1 now in
+    let '(s3, o3) := check_lifetime P s2 now in
+    (s3, (match o1 with Some d => [d] | None => [] end) ++ (match o2 with Some d => [d] | None => [] end)
+         ++ (match o3 with Some d => [d] | None => [] end)).
+
+  Fixpoint full_sweeps (times : list Z) (s : sa P) : sa P :=
+    match times with
+    | [] => s
+    | t :: rest => full_sweeps rest (fst (full_sweep s t))
+    end.
+
+  Lemma established_not_waiting : rt_states ST_ESTABLISHED = false.
+  Proof. reflexivity. Qed.
+
+  Lemma waiting_not_established st : rt_states st = true -> st <> ST_ESTABLISHED.
+  Proof. intros H ->. rewrite established_not_waiting in H. discriminate. Qed.
+
+  (** while a request is outstanding (or once DELETED) a whole sweep is just the retransmission check *)
+  Lemma full_sweep_when_waiting (s : sa P) (now : Z) :
+    rt_states (state P s) = true ->
+    fst (full_sweep s now) = fst (check_retransmission P s now).
+  Proof.
+    intros Hw. unfold full_sweep.
+    destruct (check_retransmission P s now) as [s1 o1] eqn:Hc. cbn [fst].
+    assert (Hs1 : state P s1 <> ST_ESTABLISHED).
+    { unfold check_retransmission in Hc. rewrite Hw in Hc.
+      destruct (rt_due (rt_at P s) now); [destruct (rt_giveup (rt_n P s))|]; inversion Hc; subst.
+      - unfold state, with_state, with_inner. cbn. rewrite istate_set. discriminate.
+      - unfold state. cbn. apply waiting_not_established. exact Hw.
+      - apply waiting_not_established. exact Hw. }
+    rewrite (dpd_silent P s1 now (or_introl Hs1)). rewrite (lifetime_silent P s1 now Hs1). reflexivity.
+  Qed.
+
+  Lemma full_sweeps_when_waiting (times : list Z) : forall (s : sa P) (t0 : Z) (d0 : dgram (B P)),
+    on_schedule P t0 s -> req_data P s = Some d0 -> rt_states (state P s) = true ->
+    full_sweeps times s = fst (sweeps P times s).
+  Proof.
+    induction times as [|t rest IH]; intros s t0 d0 Hs Hr Hw; [reflexivity|].
+    cbn [full_sweeps sweeps]. rewrite (full_sweep_when_waiting s t Hw).
+    destruct (check_retransmission P s t) as [s1 o] eqn:Hc. cbn [fst].
+    destruct (sweeps P rest s1) as [s2 os] eqn:Hs2. cbn [fst].
+    destruct o as [d|].
+    - apply (retransmission_is_stored_request P) in Hc.
+      destruct Hc as (Hd & Hd1 & Hin & Hn & Hat & Hlt & Hdue & _).
+      assert (Hs1 : on_schedule P t0 s1).
+      { unfold on_schedule in *. rewrite Hn, Hat. unfold RETRANSMISSION_DELAY in *. lia. }
+      assert (Hw1 : rt_states (state P s1) = true) by (unfold state in *; rewrite Hin; exact Hw).
+      assert (Hr1 : req_data P s1 = Some d0) by congruence.
+      rewrite (IH s1 t0 d0 Hs1 Hr1 Hw1), Hs2. reflexivity.
+    - unfold check_retransmission in Hc. rewrite Hw in Hc.
+      destruct (rt_due (rt_at P s) t).
+      + destruct (rt_giveup (rt_n P s)); [|inversion Hc; congruence].
+        inversion Hc; subst s1.
+        assert (Hdel : state P (with_state P s ST_DELETED) = ST_DELETED)
+          by (unfold state, with_state, with_inner; cbn; apply istate_set).
+        rewrite (sweeps_deleted P rest _ Hdel) in Hs2. inversion Hs2; subst s2.
+        clear -Hdel istate_set. induction rest as [|t' r IHr]; [reflexivity|].
+        cbn [full_sweeps]. unfold full_sweep.
+        rewrite (no_retransmission_when_not_waiting P) by (rewrite Hdel; reflexivity).
+        rewrite (dpd_silent P) by (left; rewrite Hdel; discriminate).
+        rewrite (lifetime_silent P) by (rewrite Hdel; discriminate). cbn [fst]. exact IHr.
+      + inversion Hc; subst s1. rewrite (IH s t0 d0 Hs Hr Hw), Hs2. reflexivity.
+  Qed.
+
+  (** The silent-peer bound.  An ESTABLISHED IkeSa whose liveness deadline has passed at the sweep at time [t]
+      (nothing authentic has arrived for the DPD interval) sends its probe at [t]; if nothing authentic arrives
+      afterwards, then after MAX_RETRANSMISSIONS further sweeps later than t + 20 s the IkeSa is DELETED (and the
+      controller then removes it with all its kernel SAs: C16 / C10).  No assumption on the tick pattern. *)
+  Lemma silent_peer_ends_ike_sa (s : sa P) (t : Z) (times : list Z) :
+    state P s = ST_ESTABLISHED -> dpd_at P s < t ->
+    (forall t', In t' times -> t + RETRANSMISSION_DELAY * 10 < t') ->
+    (Z.to_nat MAX_RETRANSMISSIONS <= length times)%nat ->
+    state P (full_sweeps (t :: times) s) = ST_DELETED.
+  Proof.
+    intros Hst Hdpd Hall Hlen. cbn [full_sweeps]. unfold full_sweep.
+    rewrite (no_retransmission_when_not_waiting P) by (rewrite Hst; reflexivity).
+    destruct (dpd_fires P s t Hst Hdpd) as (s1 & d & Hc & Hr & Hh & Hn & Hat). rewrite Hc.
+    assert (Hin1 : inner P s1 = fst (gen_dpd P (inner P s))).
+    { unfold check_dpd, dpd_due in Hc. rewrite Hst in Hc.
+      destruct (Z.ltb (dpd_at P s) t) eqn:E; [|lia]. cbn [andb] in Hc.
+      replace (Z.eqb ST_ESTABLISHED ST_ESTABLISHED) with true in Hc by reflexivity.
+      destruct (gen_dpd P (inner P s)) as [i' [exch body]]. cbn in Hc. inversion Hc. reflexivity. }
+    assert (Hw1 : rt_states (state P s1) = true) by (unfold state; rewrite Hin1; apply dpd_request_outstanding).
+    rewrite (lifetime_silent P s1 t (waiting_not_established _ Hw1)). cbn [fst].
+    assert (Hs1 : on_schedule P t s1) by (unfold on_schedule; rewrite Hn, Hat; unfold RETRANSMISSION_DELAY; lia).
+    rewrite (full_sweeps_when_waiting times s1 t d Hs1 Hr Hw1).
+    apply (due_sweeps_delete P istate_set t times s1 d Hs1 Hr Hw1); [rewrite Hn; unfold MAX_RETRANSMISSIONS; lia|exact Hall|].
+    rewrite Hn. unfold MAX_RETRANSMISSIONS in *. lia.
+  Qed.
+End Sweeps.
+
+(** the same with the generator contract stated against the regenerated table of states that
+    check_dead_peer_detection_timer can assign: all of them are request-outstanding states *)
+Lemma silent_peer_ends_ike_sa_gen (P : iface) :
+  (forall i z, istate P (set_state P i z) = z) ->
+  (forall i, In (istate P (fst (gen_dpd P i))) assigns_check_dead_peer_detection_timer) ->
+  forall (s : sa P) (t : Z) (times : list Z),
+  state P s = ST_ESTABLISHED -> dpd_at P s < t ->
+  (forall t', In t' times -> t + RETRANSMISSION_DELAY * 10 < t') ->
+  (Z.to_nat MAX_RETRANSMISSIONS <= length times)%nat ->
+  state P (full_sweeps P (t :: times) s) = ST_DELETED.
+Proof.
+  intros Hset Hgen. apply silent_peer_ends_ike_sa; [exact Hset|].
+  intros i. specialize (Hgen i).
+  assert (Hall : forallb rt_states assigns_check_dead_peer_detection_timer = true) by (vm_compute; reflexivity).
+  rewrite forallb_forall in Hall. apply Hall. exact Hgen.
+Qed.
